@@ -486,7 +486,7 @@ func (g *vgen) mkEntry(idx uint64, cp bool) *raft.Log {
 		l.Data = append([]byte("CP"), r.Bytes(r.Intn(4))...)
 		return l
 	}
-	l.Type = raft.LogType(r.Intn(5))
+	l.Type = raft.LogType(r.Intn(6)) // includes LogConfiguration at any index (membership changes)
 	if idx == 1 && r.Chance(1, 2) {
 		l.Type = raft.LogConfiguration
 	}
